@@ -227,6 +227,8 @@ class Run:
         return nf
 
     def require_kinds(self, *kinds):
+        if any(c.endswith(".hang") for _, _, cl in self.fails for c in cl):
+            return   # a recorded hang of the real code cut a trace short: that is the verdict, not a vacuous run
         for k in kinds:
             if sum(self.kinds.get(a, 0) for a in k.split("|")) == 0:
                 raise MachineryError("vacuity guard: no event of kind %s was validated" % k)
